@@ -20,7 +20,8 @@ def profiles(tier):
     place = ("MCGenPlace", {"MAXSTMTS": 5, "MAXDEPTH": 3, "EVENTS": 2})
     if tier == "quick":
         return [("MCGenScope", {"MAXSTMTS": 4, "MAXDEPTH": 3, "EVENTS": 2}), ("MCGenFn", {"MAXSTMTS": 4, "MAXDEPTH": 3, "EVENTS": 2}), dead, place]
-    return [("MCGenScope", {"MAXSTMTS": 5, "MAXDEPTH": 3, "EVENTS": 2}), ("MCGenFn", {"MAXSTMTS": 5, "MAXDEPTH": 3, "EVENTS": 2}), dead, place]
+    # (scope at 5 statements no longer finishes within an hour since the profile got interp2 and re-make: depth 4 instead)
+    return [("MCGenScope", {"MAXSTMTS": 4, "MAXDEPTH": 4, "EVENTS": 2}), ("MCGenFn", {"MAXSTMTS": 5, "MAXDEPTH": 3, "EVENTS": 2}), dead, place]
 
 
 def run(tier):
@@ -28,7 +29,7 @@ def run(tier):
     v = common.Verdict("C04", tier, "model_checking")
     tally = le.Tally()
     for module, env in profiles(tier) + [("GenNameCases", {"EVENTS": 2})]:
-        r = le.generate(module, env=env, timeout=1500, cfg="lang/GenNameCases.cfg" if module == "GenNameCases" else "lang/MCGen.cfg",
+        r = le.generate(module, env=env, timeout=3600, cfg="lang/GenNameCases.cfg" if module == "GenNameCases" else "lang/MCGen.cfg",
                         coverage=module != "GenNameCases")
         tally.add_tlc(module, r)
         judged = le.replay(r.records, modes=["nn", "fn", "fp"], ev=3, compare_events=True)
